@@ -43,14 +43,14 @@ Definition parse_uint (bits : Z) (s : text) : option Z :=
   | None => None
   end.
 (** strconv.ParseInt(s, 10, bits): optional sign, then ParseUint, then the range check *)
+Definition signed_nat (s : text) : option Z :=
+  match s with
+  | x2d :: r => option_map Z.opp (parse_nat r)
+  | x2b :: r => parse_nat r
+  | _ => parse_nat s
+  end.
 Definition parse_int (bits : Z) (s : text) : option Z :=
-  let signed :=
-    match s with
-    | x2d :: r => option_map Z.opp (parse_nat r)
-    | x2b :: r => parse_nat r
-    | _ => parse_nat s
-    end in
-  match signed with
+  match signed_nat s with
   | Some z => if (- 2 ^ (bits - 1) <=? z) && (z <? 2 ^ (bits - 1)) then Some z else None
   | None => None
   end.
